@@ -405,6 +405,15 @@ def prepare(ck: Check, ctx: Ctx) -> dict[int, list[int]]:
                 ck.count("pair_dropped_too_slow")
                 continue
             usable[e].append(x)
+            if t["agg"] is not None:
+                # numeric TEST (not part of the proof): the aggregate is the documented formula up to rounding
+                import math
+                js = t["J"]
+                ref = (math.expm1(math.fsum(math.log1p(j) for j in js) / len(js)) if ctx.le
+                       else math.fsum(js) / len(js))
+                ck.spec(abs(t["agg"] - ref) <= 1e-9 * max(abs(ref), 1e-300) + 1e-300, "aggregate_formula",
+                        f"sum_up_results({js}) = {t['agg']!r}, documented formula gives {ref!r}",
+                        dict(ctx.spec, J=[hexf(j) for j in js]))
             fb = t["first_bad"]
             ck.count("pair_all_ok" if fb is None else f"pair_first_bad_case_{min(fb, 3)}{'_of_many' if fb and fb > 0 else ''}")
     return usable
@@ -604,7 +613,7 @@ def instance_plan(ck: Check):
             rng.shuffle(f)
             combos = [(c, f[i % len(f)]) for i, c in enumerate(ctrls)]
         else:
-            combos = [(c, f) for c in ctrls for f in rng.sample(fams, 2)]
+            combos = [(c, f) for c in ctrls for f in rng.sample(fams, 3)]
             rng.shuffle(combos)
         lst = []
         for c, f in combos:
@@ -660,7 +669,7 @@ def streams(ck: Check) -> None:
 
     # (4)+(3) boundary families and structured random histories on every planned instance
     plan = instance_plan(ck)
-    per_inst = 9 if quick else 14
+    per_inst = 9 if quick else 20
     hid = 0
     for idx, (sysname, cname, fam, le, sup) in enumerate(plan):
         if time.time() - t_start > budget:
@@ -760,6 +769,18 @@ def replay(path: str) -> int:
     badn = 0
     for v in rec.get("violations", []):
         c = v.get("case") or {}
+        if v.get("key") == "aggregate_formula" and "J" in c:
+            import math
+            import numpy as np
+            ctx = Ctx(c)
+            js = [float.fromhex(j) for j in c["J"]]
+            got = float(ctx.cls.sum_up_results(ctx.helper, np.array(js)))
+            ref = (math.expm1(math.fsum(math.log1p(j) for j in js) / len(js)) if ctx.le else math.fsum(js) / len(js))
+            ok = abs(got - ref) <= 1e-9 * max(abs(ref), 1e-300) + 1e-300
+            print(f"aggregate_formula: sum_up_results({js}) = {got!r}, documented {ref!r}: "
+                  f"{'ok' if ok else 'VIOLATION reproduced'}")
+            badn += 0 if ok else 1
+            continue
         if "history" not in c:
             print("not replayable:", v.get("key"))
             continue
